@@ -233,8 +233,8 @@ def process(cases, driver_ok, execute, dec_len=0, dec_runs=0):
                     h['covered_by_checker_only'] += 1
                     h['of_which_in_the_known_finding_class'] += (not nojump)
                     h['of_which_real_builder_fails_an_assert'] += bool(c.real.error)
-                # the key-distinctness hypothesis may fail only where the real builder itself fails
-                if not dist and not c.real.error:
+                # the key-distinctness hypothesis holds of every serialised program (ids are distinct AST nodes)
+                if not dist:
                     broken(st, 'hypothesis:fnDistinctKeys3', json.dumps({'key': c.key, 'source': c.source}))
                 # the shape conditions hold of every parsed program of the walk's language
                 if sup and not shape:
@@ -413,7 +413,8 @@ def check(run):
                         corpus.append((fn, json.load(f)))
         known = [k for k in common.load_known_findings() if k.get('property') == 'C05']
         for k in known:
-            corpus.append(('known:' + k['id'], {'source': k['witness']['source'], 'expect_fail': True}))
+            # the witness of an open finding must still fail; the witness of a fixed one is a must-pass case
+            corpus.append(('known:' + k['id'], {'source': k['witness']['source'], 'expect_fail': k.get('status', 'open') == 'open'}))
         ccases = [Case('corpus:' + n, j['source']) for n, j in corpus]
         st = process(ccases, run.driver_ok, True, cfg['dec_len'] + 2, 400)
         witness_fails = {c.key for c in ccases for f in st['fails'] if f['case']['key'] == c.key}
@@ -421,6 +422,9 @@ def check(run):
             if j.get('expect_fail'):
                 run.oblige('known-finding-witness-still-fails:' + n, 'witness', c.key in witness_fails,
                            'the listed witness no longer fails on the real code: the finding must be removed and the hypothesis dropped')
+            else:
+                run.oblige('corpus-case-is-built:' + n, 'witness', not c.real.error,
+                           'cfg.build raises on a must-pass corpus case: %s' % c.real.error)
         absorb(run, st, 'corpus'); merge_stats(total, dict(st, fails=[]))
         run.cov['corpus_cases'] = len(ccases)
 
